@@ -3,6 +3,8 @@ Line-protocol driver for the C13 models (calendar, interval calculators, query p
 `<c>` is `day` | `month` | `year`; all numbers are decimal integers (milliseconds).
 
   all <c> <t>                       -> <segName> <seg> <family> <start> <end> <familyTime>
+  zall <zone> <c> <t>               -> the same with time.Local = <zone>: an offset in seconds east of UTC
+                                       (fixed-offset zone) or `ny2024` (America/New_York around 2024-11-03)
   seg <c> <t>                       -> CalcSegmentTime
   fam <c> <t> <segTime>             -> CalcFamily
   fstart <c> <segTime> <family>     -> CalcFamilyStartTime
@@ -32,6 +34,7 @@ Line-protocol driver for the C13 models (calendar, interval calculators, query p
 -/
 import LinVerif.Util.Proto
 import LinVerif.Model.Interval
+import LinVerif.Model.IntervalZone
 import LinVerif.Generated.C13
 
 namespace LinVerif.Driver.C13
@@ -42,6 +45,9 @@ def parseCalc : String → Option Calc
   | "month" => some .month
   | "year" => some .year
   | _ => none
+
+def parseZone (w : String) : Option Zone :=
+  if w = "ny2024" then some Zone.newYorkFall2024 else (w.toInt?).map Zone.fixed
 
 def showCalc : Calc → String
   | .day => "day" | .month => "month" | .year => "year"
@@ -77,6 +83,14 @@ def step (st : Unit) (ws : List String) : Unit × String :=
         let start := calcFamilyStartTime c seg fam
         s!"{segmentName c t} {seg} {fam} {start} {calcFamilyEndTime c start} {calcFamilyTime c t}"
       | _, _ => "bad-op"
+    | ["zall", z, c, t] =>
+      match parseZone z, parseCalc c, t.toInt? with
+      | some z, some c, some t =>
+        let seg := calcSegmentTimeZ z c t
+        let fam := calcFamilyZ z c t seg
+        let start := calcFamilyStartTimeZ z c seg fam
+        s!"{segmentNameZ z c t} {seg} {fam} {start} {calcFamilyEndTimeZ z c start} {calcFamilyTimeZ z c t}"
+      | _, _, _ => "bad-op"
     | ["seg", c, t] =>
       match parseCalc c, t.toInt? with
       | some c, some t => toString (calcSegmentTime c t)
